@@ -77,7 +77,8 @@ pub fn run(args: &[String]) {
     crate::alloc::silence_panics();
     let path = &args[0];
     let kind = args[1].as_str();
-    let to: i64 = args[2].parse().unwrap();
+    let to_ms: i64 = args[2].parse().unwrap();
+    let to: i64 = if to_ms < 0 { to_ms } else { to_ms * 2 }; // Inst works in half-milliseconds
     let cap: u64 = args[3].parse().unwrap();
     let channels: Vec<u8> = args[4].split(',').map(|x| x.parse().unwrap()).collect();
     let imp = args[5].as_str();
@@ -178,7 +179,7 @@ pub fn run(args: &[String]) {
                         path.reverse();
                         let id = next_id;
                         next_id += 1;
-                        let mut lines = vec![json!({"op": "new", "id": id, "k": kind, "to": to})];
+                        let mut lines = vec![json!({"op": "new", "id": id, "k": kind, "to": to_ms})];
                         for pk in path {
                             lines.push(script_line(&edges[pk], ch, imp, id));
                         }
